@@ -1,0 +1,10 @@
+//go:build verif
+
+package errors
+
+// C09 / C11: every call of Module() builds its module from objects allocated in that call. NewBuiltinsModule writes a
+// back-reference to the module into each builtin it is given, so builtins shared between modules are written by
+// every evaluation that builds its globals (a race, C09) and their __module__ reaches whichever module was built
+// last - one that another configuration's denylist and overrides never touched (C11; seed C11f shared the method
+// builtins of modules/http, seed C09d the table of modules/math).
+//@ pkgcallpre[mod.fresh] C09,C11 NewBuiltinsModule: fresh(arg1) && forallA(k, string, haskey(arg1, k) ==> fresh(arg1[k]))
